@@ -7,7 +7,9 @@ pub mod c02;
 pub mod c04;
 pub mod c05;
 pub mod c06;
+#[cfg(feature = "vo_bit")]
 pub mod c07;
+#[cfg(feature = "vo_bit")]
 pub mod c08;
 pub mod c11;
 pub mod c13;
@@ -15,7 +17,6 @@ pub mod c17;
 pub mod c18;
 pub mod c19;
 pub mod c20;
-pub mod metaconc;
 pub mod c21;
 pub mod c22;
 pub mod c23;
@@ -25,6 +26,7 @@ pub mod c26;
 pub mod c27;
 pub mod c29;
 pub mod c30;
+pub mod c31;
 pub mod c32;
 pub mod c33;
 pub mod c34;
@@ -34,6 +36,8 @@ pub mod c37;
 pub mod c38;
 pub mod c39;
 pub mod c40;
+pub mod metaconc;
+
 
 
 
@@ -43,7 +47,9 @@ pub fn run(id: &str, run: &mut Run) {
         "C02" => c02::run(run),
         "C04" => c04::run(run),
         "C05" => c05::run(run),
+        #[cfg(feature = "vo_bit")]
         "C07" => c07::run(run),
+        #[cfg(feature = "vo_bit")]
         "C08" => c08::run(run),
         "C11" => c11::run(run),
         "C13" => c13::run(run),
@@ -71,6 +77,7 @@ pub fn run(id: &str, run: &mut Run) {
         "C19" => c19::run(run),
         "C06" => c06::run(run),
         "C34" => c34::run(run),
+        "C31" => c31::run(run),
         _ => machinery_failure(&format!("no check for property {}", id)),
     }
 }
@@ -81,7 +88,9 @@ pub fn replay(id: &str, case: &Value, run: &mut Run) {
         "C02" => c02::replay(case, run),
         "C04" => c04::replay(case, run),
         "C05" => c05::replay(case, run),
+        #[cfg(feature = "vo_bit")]
         "C07" => c07::replay(case, run),
+        #[cfg(feature = "vo_bit")]
         "C08" => c08::replay(case, run),
         "C11" => c11::replay(case, run),
         "C13" => c13::replay(case, run),
@@ -109,6 +118,7 @@ pub fn replay(id: &str, case: &Value, run: &mut Run) {
         "C19" => c19::replay(case, run),
         "C06" => c06::replay(case, run),
         "C34" => c34::replay(case, run),
+        "C31" => c31::replay(case, run),
         _ => machinery_failure(&format!("no replay for property {}", id)),
     }
 }
@@ -117,7 +127,9 @@ pub fn child(id: &str, args: &[String]) {
     match id {
         "C01" => c01::child(args),
         "C05" => c05::child(args),
+        #[cfg(feature = "vo_bit")]
         "C07" => c07::child(args),
+        #[cfg(feature = "vo_bit")]
         "C08" => c08::child(args),
         "C11" => c11::child(args),
         "C13" => c13::child(args),
@@ -129,6 +141,7 @@ pub fn child(id: &str, args: &[String]) {
         "C32" => c32::child(args),
         "C06" => c06::child(args),
         "C34" => c34::child(args),
+        "C31" => c31::child(args),
         _ => machinery_failure(&format!("no child mode for property {}", id)),
     }
 }
